@@ -729,6 +729,13 @@ PSPUBLIC int32 psPkcs12ParseMem(psPool_t *pool, psX509Cert_t **cert, psPubKey_t 
 #  endif /* USE_PKCS8 */
 # endif  /* USE_PRIVATE_KEY_PARSING */
 
+/* Largest password-based key derivation iteration count accepted from a
+   PKCS#8 or PKCS#12 file.  The count is attacker-chosen input and the
+   derivation time is linear in it. */
+# ifndef PS_PBE_MAX_ITERATIONS
+#  define PS_PBE_MAX_ITERATIONS 5000000
+# endif
+
 # ifdef USE_PKCS5
 /******************************************************************************/
 /*
